@@ -753,10 +753,16 @@ def _composite_keystone_aperture(x, y, center_circle_diameter,
             rr = arr[:, 0]
             tt = arr[:, 1]
             xx, yy = polar_to_cart(rr, tt)
-            minx = min(xx)
-            maxx = max(xx)
-            miny = min(yy)
-            maxy = max(yy)
+            # the outer arc is widest where it crosses a coordinate axis,
+            # which is at a corner or the midpoint only for some segment counts
+            crossings = [a for a in (-np.pi, -np.pi/2, 0., np.pi/2, np.pi, 3*np.pi/2, 2*np.pi) if lo < a < hi]  # NOQA - length
+            ex, ey = polar_to_cart(outer_radius, np.array(crossings))
+            bx = np.concatenate([xx, ex])
+            by = np.concatenate([yy, ey])
+            minx = min(bx)
+            maxx = max(bx)
+            miny = min(by)
+            maxy = max(by)
             rangex = maxx - minx
             rangey = maxy - miny
             samples = math.ceil(max((rangex/dx, rangey/dx))/2)
